@@ -26,7 +26,12 @@ def handle (_tb : Tables) (c impl : T) : String :=
        let alts := [{ flag := "D32", onInCur := d32, obs := predict (!d32) d33 : Alt },
                     { flag := "D33", onInCur := d33, obs := predict d32 (!d33) }]
        let want := predict false false
-       if impl == cur then
+       -- a description with a backslash or a triple quote is printed unescaped (D32): the printed text is then
+       -- some other string sequence, and whether it happens to be rejected, or accepted as a different schema,
+       -- depends on what follows it; no particular failure mode is predicted
+       if d32 && (bs || tq) then
+         (if impl == want then "ok" else "dev " ++ ",".intercalate (["D32"] ++ (if d33 && dir then ["D33"] else [])))
+       else if impl == cur then
          (if impl == want then "ok"
           else "dev " ++ ",".intercalate ((if d32 && (bs || tq) then ["D32"] else []) ++ (if d33 && dir then ["D33"] else [])))
        else
